@@ -17,6 +17,7 @@ import (
 	"fmt"
 	"os"
 	"runtime"
+	"runtime/pprof"
 	"sort"
 	"strconv"
 	"strings"
@@ -47,6 +48,7 @@ var (
 	policy    = flag.String("policy", "local_deletion", "expiration policy of the namespace and of the simulated replicas: local_deletion | wait_compact")
 	sweep     = flag.Int64("sweep", 0, "run the length sweep instead of random mutants: size constants of the write path up to this value, +-32 bytes")
 	sweepPart = flag.String("sweeppart", "0/1", "k/n: the k-th of n slices of the write commands for the length sweep")
+	statePart = flag.String("statepart", "", "k/n: slice of the state sequences (default: the same as -sweeppart); every expiration policy should see all of them")
 	sweepFull = flag.Bool("sweepfull", false, "length sweep: every constant also in the field/member and key positions")
 	useV2     = flag.Bool("v2", false, "live server with use_redis_v2 (raw command proposed, namespace cut at apply)")
 	avoid     = flag.String("avoid", "", "comma separated signatures of OPEN known findings whose inputs are not executed (they would take the harness down)")
@@ -86,6 +88,12 @@ func main() {
 		server.SetLogger(int32(common.LOG_ERR), common.NewLogger())
 		slow.SetLogger(int32(common.LOG_ERR), common.NewLogger())
 		rafthttp.SetLogLevel(int(common.LOG_ERR))
+	}
+	if pf := os.Getenv("NODESIM_PROF"); pf != "" {
+		if f, err := os.Create(pf); err == nil {
+			pprof.StartCPUProfile(f)
+			defer pprof.StopCPUProfile()
+		}
 	}
 	r := hx.NewRng(*seed)
 
@@ -147,10 +155,26 @@ func main() {
 			var spk, spn int
 			fmt.Sscanf(*sweepPart, "%d/%d", &spk, &spn)
 			sv := sweepVectors(names, func(n string) bool { ci := info[n]; return ci != nil && (ci.write || ci.mergewrite) }, *sweep, spk, spn, *sweepFull)
-			// deterministic order, large values interleaved with the clearing blocks below
-			for k, v := range sv {
+			// the state sequences first (small stores), then the sizes in ascending order; the clearing blocks
+			// come every 400 vectors, every 60 once the values are large (the engine dumps taken around
+			// every vector read everything that is stored)
+			stk, stn := spk, spn
+			if *statePart != "" {
+				fmt.Sscanf(*statePart, "%d/%d", &stk, &stn)
+			}
+			sv = append(stateSweep(names, stk, stn, *sweepFull), sv...)
+			sinceClear := 0
+			for _, v := range sv {
 				vecs = append(vecs, v)
-				if (k+1)%400 == 0 {
+				sinceClear++
+				large := false
+				for _, a := range v.args {
+					if len(a) > 100000 {
+						large = true
+					}
+				}
+				if sinceClear >= 400 || (large && sinceClear >= 60) {
+					sinceClear = 0
 					for _, c := range maintenance {
 						vecs = append(vecs, vector{args: bb(c), base: c[0], mut: "maintenance"})
 					}
@@ -176,6 +200,7 @@ func main() {
 		}
 		if *big {
 			vecs = append(vecs, dictionarySweep(names)...)
+			vecs = append(vecs, liveCollectionBig()...)
 			bv := bigVectors()
 			// spread them over the run
 			for i, v := range bv {
@@ -296,6 +321,7 @@ func main() {
 	}
 
 	probeN := int64(0)
+	var sandLast *dumpT
 	stalls := 0
 	noReply := map[string]int{}
 	type pend struct {
@@ -522,11 +548,11 @@ func main() {
 				kind = "i"
 			}
 		}
-		// arguments above 2 MiB are not given to the extracted model (lists of millions of numbers): such
+		// arguments above 64 KiB are not given to the extracted model (lists of millions of numbers): such
 		// vectors are judged by the direct oracle only
 		huge := false
 		for _, a := range v.args {
-			if len(a) > 2<<20 {
+			if len(a) > 65536+64 {
 				huge = true
 			}
 		}
@@ -542,6 +568,7 @@ func main() {
 			// replay files only: one pass of the local_deletion expiry sweep on the live node's store, run
 			// under the apply timeout (the sweep writes through the engine's write batches)
 			done := make(chan int, 1)
+			ln.cached = nil
 			go func() { n, _ := ln.st.VerifValidExpireTick(); done <- n }()
 			select {
 			case n := <-done:
@@ -576,6 +603,7 @@ func main() {
 				}
 				group = append(group, c)
 			}
+			ln.cached = nil
 			nrep, nerr, closed, tmo := ln.rc.pipeline(group, 2*time.Second)
 			if closed || tmo {
 				ln.rc.c.Close()
@@ -675,7 +703,11 @@ func main() {
 				rq = applyReq{dtype: node.RedisV2Req, args: v.args}
 			}
 			co.Printf("A%s.%d\tA\t%d\t%s\t%s\n", id, form, form, encL(rq.args), floatTable(rq.args))
-			sbefore := dumpStore(sand.st.RockDB)
+			if sandLast == nil {
+				d0 := dumpStore(sand.st.RockDB)
+				sandLast = &d0
+			}
+			sbefore := *sandLast
 			ats := nextTs()
 			// the pre-check that lets a batchable write join the open batch (isValidBatchableWrite), on the
 			// command as ApplyRaftRequest sees it; B case for the model, and below: passed => no error
@@ -712,16 +744,23 @@ func main() {
 				// abort a shared batch and take the neighbours' writes and replies with it
 				oo.Printf("A%s.%d\tsandbox=precheck-passed-but-error verdict=%s err=%s\n", id, form, verdict, hx.H([]byte(trunc(res.etxt[0], 80))))
 			}
+			sandLast = nil
+			if !res.panicked && !res.hung {
+				d1 := dumpStore(sand.st.RockDB)
+				sandLast = &d1
+			}
 			if rs == "err" {
 				// an erroring request must leave the committed state alone and nothing in the shared
 				// batch: the next successful write (health probe) must change its own keys only
-				safter := dumpStore(sand.st.RockDB)
+				safter := *sandLast
 				if d := diffDump(sbefore, safter); len(d) > 0 {
 					oo.Printf("A%s.%d\tsandbox=error-changed verdict=%s n=%d key=%s err=%s\n", id, form, verdict, len(d), hx.H(d[0]), hx.H([]byte(trunc(res.etxt[0], 80))))
 				} else {
 					h := sand.applyEntries([][]applyReq{{{dtype: node.RedisReq, args: bb([]string{"set", "probe:s", id})}}}, nextTs())
 					if !h.panicked && !h.hung {
-						for _, k := range diffDump(safter, dumpStore(sand.st.RockDB)) {
+						d2 := dumpStore(sand.st.RockDB)
+						sandLast = &d2
+						for _, k := range diffDump(safter, d2) {
 							if !bytes.Contains(k, []byte("probe")) {
 								oo.Printf("A%s.%d\tsandbox=leak verdict=%s key=%s err=%s\n", id, form, verdict, hx.H(k), hx.H([]byte(trunc(res.etxt[0], 80))))
 								break
@@ -743,6 +782,7 @@ func main() {
 			if res.panicked {
 				// a panic may have left locks held or a batch open: keep the sandbox only if it still works
 				h := sand.applyEntries([][]applyReq{{{dtype: node.RedisReq, args: bb([]string{"set", "t:health", "1"})}}}, nextTs())
+				sandLast = nil
 				if h.panicked || h.hung || h.rsp[0] != "ok" {
 					old := sand
 					if ns, err := newSimSM("sand", *engName, *policy); err == nil {
